@@ -104,6 +104,8 @@ type sharedVar struct {
 var (
 	sharedVars []sharedVar
 	modePtr    *decimal128.RoundingMode
+	// staticRanges: the memory of the library's package-level variables.
+	staticRanges []memSpan
 	// InternalTableWrites counts changes of the library's own tables that no
 	// client write explains (reported in the evidence, not a verdict).
 	InternalTableWrites int
@@ -142,6 +144,12 @@ var pinnedShared = map[string]bool{
 // InitShared locates the library's package-level variables.
 func InitShared() {
 	names, ptrs := decimal128.VerifShared()
+	for i := range names {
+		if v := reflect.ValueOf(ptrs[i]); v.Kind() == reflect.Pointer && !v.IsNil() {
+			lo := v.Pointer()
+			staticRanges = append(staticRanges, memSpan{lo, lo + v.Type().Elem().Size()})
+		}
+	}
 	for i, n := range names {
 		if n == "DefaultRoundingMode" {
 			if p, ok := ptrs[i].(*decimal128.RoundingMode); ok {
@@ -386,6 +394,7 @@ func runEpochPass(p *Program, ei int, opt *Options, plan bool) *epochRun {
 // planned concurrent pass, then all oracles.
 func Execute(p *Program, opt *Options) *Outcome {
 	out := &Outcome{Faults: map[string]int{}}
+	dropEphemeralLockEdges()
 	h := fnv.New64a()
 	sched := fnv.New64a()
 	seen := map[string]string{} // (mode, op description) -> result key, across epochs
